@@ -359,6 +359,12 @@ pub fn gen_world(base: u64, run: u64, profile: Profile) -> World {
         Profile::C19 => [1, 2, 2, 2, 3, 3, 4][kn.usize_below(7)],
         Profile::C09 => [1, 1, 1, 2, 2, 3][kn.usize_below(6)],
     };
+    // 1 in 400 worlds: one big haystack (4-48 KB) whose candidate matches sit at distances
+    // of 2^k - j from each other: size thresholds in prefilter scans (windows, chunking,
+    // narrow integers) are out of reach of the ordinary strata
+    if kn.chance(1, 400) {
+        return gen_big_world(&mut wl, &mut sc, &corpus, profile);
+    }
     let fault_free = kn.chance(1, 10); // separate stratum: no faults, serial schedule
     let strategy = if fault_free || nthreads == 1 {
         Strategy::Serial
@@ -636,4 +642,49 @@ pub fn gen_world(base: u64, run: u64, profile: Profile) -> World {
     let pristine = kn.chance(1, 24);
     let knobs = Knobs { fuel, strategy, sched_seed: sc.next_u64() >> 1, max_switches: 400, pristine };
     World { regexes, hays, threads, knobs }
+}
+
+
+fn gen_big_world(wl: &mut Rng, sc: &mut Rng, corpus: &[(String, String)], profile: Profile) -> World {
+    // a pattern with a literal run (so that candidates can be placed), else any pattern
+    let mut pick = corpus[wl.usize_below(corpus.len())].clone();
+    for _ in 0..6 {
+        if !literal_tokens(&[pick.1.as_str()], false).is_empty() {
+            break;
+        }
+        pick = corpus[wl.usize_below(corpus.len())].clone();
+    }
+    let (flags, pattern) = pick;
+    let toks0 = literal_tokens(&[pattern.as_str()], false);
+    let toks: Vec<String> = if toks0.is_empty() { vec!["ab".into(), "12".into()] } else { toks0 };
+    let fillers = ['x', ' ', '.', '-', 'z', '\n', 'é'];
+    let fill = fillers[wl.usize_below(fillers.len())];
+    let target = [4_500usize, 9_000, 20_000, 48_000][wl.usize_below(4)];
+    let mut text = String::with_capacity(target + 64);
+    while text.len() < target {
+        let t = &toks[wl.usize_below(toks.len())];
+        // sometimes only a prefix of the token: a near miss
+        if wl.chance(1, 6) {
+            let cs: Vec<char> = t.chars().collect();
+            text.extend(cs[..1 + wl.usize_below(cs.len())].iter());
+        } else {
+            text.push_str(t);
+        }
+        let k = wl.range(3, 14);
+        let gap = (1usize << k).saturating_sub(wl.below(t.len() as u64 + 3) as usize);
+        for _ in 0..gap {
+            text.push(fill);
+        }
+    }
+    let exec = if wl.chance(1, 5) { ExecKind::Pike } else { ExecKind::Backtrack };
+    let regexes = vec![RegexSpec { pattern, flags, exec, input: InputKind::Utf8 }];
+    let hays = vec![Hay { text, owner: None }];
+    let mut ops = vec![Op { kind: OpKind::Open { h: 0, re: ReRef::Shared(0), hay: 0, start: if wl.chance(1, 3) { Start::Boundary(wl.below(4000) as u32) } else { Start::Zero } }, cancel_at: 0 }];
+    ops.push(Op { kind: OpKind::Drain { h: 0 }, cancel_at: 0 });
+    if wl.chance(1, 2) {
+        ops.push(Op { kind: OpKind::Find { re: ReRef::Shared(0), hay: 0 }, cancel_at: 0 });
+    }
+    let _ = profile;
+    let knobs = Knobs { fuel: 4_000_000, strategy: Strategy::Serial, sched_seed: sc.next_u64() >> 1, max_switches: 400, pristine: false };
+    World { regexes, hays, threads: vec![ops], knobs }
 }
